@@ -55,6 +55,8 @@ def realise(d, rng):
         out["feature"] = [float(rng.randint(0, 5)) for _ in range(max(1, m))]
         if d["featLenMismatch"] and len(out["feature"]) == npred:
             out["feature"].append(1.0)
+        if rng.random() < 0.5:  # a feature with a null: the bin checks must not depend on it
+            out["feature"][rng.randrange(len(out["feature"]))] = float("nan")
     if d["hasWeights"]:
         m = n + (rng.choice([1, -1]) if d["wLenMismatch"] else 0)
         w = [float(rng.randint(1, 3)) for _ in range(m)]
